@@ -949,7 +949,7 @@ static std::string BoundNames(const char *typeName)
 
 static int ChildMain(const std::string& variant, int conc)
 {
-	alarm(60);
+	alarm(300);   /* wall clock: a hang of the real code ends the child; 60 s was reached on an oversubscribed machine (load > 100) */
 	l_Debug = getenv("C16_DEBUG") != nullptr;
 	if (!l_Debug) {
 		int devnull = open("/dev/null", O_WRONLY);
